@@ -16,7 +16,12 @@ for s in $seeds; do
   [ "$s" = "C04-f" ] && checks="C04 C05"   # two deploys committing stale routing tables: needs overlapping commands; C04 quantifies over command orders, C05 has the racing deploys
   [ "$s" = "C11-f" ] && checks="C11 C12"   # stale cached encoding needs two overlapping commands: C12's overlapping pairs
   [ "$s" = "C06-f" ] && checks="C06 C17"   # a probe left in flight / sent after the failed command returned: C17 owns the probe timing (slow-probe configs, select choice points)
-  [ "$s" = "C10-e" ] && checks="C10 C12"   # needs overlapping snapshots: C10 quantifies over sequential histories, C12 has the overlapping pairs
+  [ "$s" = "C10-e" ] && checks="C10 C12"
+  [ "$s" = "C11-i" ] && checks="C11 C12"   # a save skipped while another snapshot is being written: overlapping commands = C12's pairs
+  if grep -q '"neutralised_by"' seeded/$s/meta.json 2>/dev/null; then
+    echo "$s neutralised-by-a-later-fix (see meta.json: its trigger no longer exists; demo passes on the rebased patch)" | tee -a $tmp
+    continue
+  fi   # needs overlapping snapshots: C10 quantifies over sequential histories, C12 has the overlapping pairs
   target=/repo
   if [ "${SEED_WT:-0}" = 1 ]; then
     target=/tmp/seedwt-$s
